@@ -295,6 +295,31 @@ def ifchain_cases():
                     yield text, want, "".join(vals) + ("+else" if has_else else "")
 
 
+# break / continue where no loop of the same function or program is running: they affect nothing (break and continue act on the
+# innermost enclosing loop; there is none), in particular not a loop of the caller
+STRAY = [
+    ('print "a"; break; print "b";', "a\nb\n"),
+    ('print "a"; continue; print "b";', "a\nb\n"),
+    ('if vt then break; end if; print "b"; if vt then continue; end if; print "c";', "b\nc\n"),
+    ('begin break; print "in"; exception when others then print "h"; end; print "b";', "in\nb\n"),
+    ('function fs() return integer is begin break; print "in"; continue; print "in2"; return 7; end; print fs(); print "b";', "in\nin2\n7\nb\n"),
+    ('function fs() return integer is begin for q in 1 to 2 loop nop; end loop; break; print "in"; return 8; end; print fs(); print fs();', "in\n8\nin\n8\n"),
+    ('function fs() return integer is begin break; return 7; end; for k in 1 to 2 loop zz = fs(); print k; end loop; print "b";', "1\n2\nb\n"),
+    ('function fs() return integer is begin continue; return 7; end; n = 0; while n < 2 loop n = n + 1; zz = fs(); print n; end loop; print "b";', "1\n2\nb\n"),
+    ('function fs() return integer is begin if true then break; end if; return 7; end; t = tab(2, 1); forall e in t loop zz = fs(); print e; end loop; print "b";', "1\n1\nb\n"),
+    ('for k in 1 to 2 loop print k; end loop; break; print "after";', "1\n2\nafter\n"),
+]
+
+
+def stray_gen(tier):
+    def gen():
+        for n, (prog, want) in enumerate(STRAY):
+            for route in ("cpp", "capi"):
+                ops = [op_ctx(), op_run(DECL + " vn = bool(); ni = int();"), op_run(prog, route=route), op_out(), op_dump(0, "I1"), op_run(PROBES), op_out(), op_dump(0, "I")]
+                yield Case("y%d" % n, ops, {"kind": "ifchain", "tag": "stray%d" % n, "where": route, "prog": prog, "want": want})
+    return gen
+
+
 def ifchain_gen(tier):
     def gen():
         n = 0
@@ -468,6 +493,7 @@ def run(tier):
     from ..core import explore_gcc
     total.merge(explore_gcc("%s-%s-headers" % (PROP, tier), header_gen(tier), check, chunk=200, deadline=deadline))
     total.merge(explore("%s-%s-ifchains" % (PROP, tier), ifchain_gen(tier), check, chunk=200, deadline=deadline))
+    total.merge(explore("%s-%s-stray" % (PROP, tier), stray_gen(tier), check, chunk=20, deadline=deadline))
     total.merge(explore("%s-%s-nesting" % (PROP, tier), nest_gen(tier), check, chunk=200, deadline=deadline))
     rule = ("(a) every for header over first/limit in {MIN, MIN+1, -2..2, MAX-1, MAX, null} x step in {absent, null, MIN, -1, 0, 1, 2, MAX} x "
             "{auto, asc, desc}; every short range (|limit-first| <= 3, steps 1..3) run to completion near 0, INT64_MAX and INT64_MIN, with bodies "
